@@ -152,8 +152,14 @@ class Ctxt:
             if self.v_ok:
                 out.append(('mixed', *kw([a[h:], self.pred(kind, py[:h])])))
                 out.append(('predset', *kw({self.pred(kind, py)})))
+        # vertices named by their coordinates: a tuple is one location, collections of tuples several
+        pt = lambda v: tuple(float(x) for x in self.mesh.p[:, v])
         if len(a) == 1:
-            out.append(('point', *kw(tuple(float(x) for x in self.mesh.p[:, py[0]]))))
+            out.append(('point', *kw(pt(py[0]))))
+        if len(a) >= 1:
+            out.append(('points', *kw([pt(v) for v in py])))
+            out.append(('pointset', *kw({pt(v) for v in py})))
+            out.append(('points+array', *kw([pt(py[0]), a[1:]])))
         return out
 
 
@@ -518,6 +524,19 @@ def generate(ctx):
             for a in range(nm):
                 fam, mrec = cand[(q + a * 3) % len(cand)]
                 recs.append(recipe(rng, fam, mrec, spec, depth))
+        # translated / scaled copies (exact in floating point): far from the origin relative to the cell size
+        # (about 5e5 with h = 1; about 1e3 with h = 2^-10), and ordinary scaled ones
+        plain = [x for x in multi if x[1].get('scale', 1) == 1 and x[1].get('order', 1) == 1 and len(x[1]['t'][0]) <= 12]
+        dim = DC.DIM[kind]
+        xfs = [{'pow2': 0, 'add': [2 ** 19] * dim}, {'pow2': -10, 'add': [1024] * dim}]
+        if thorough:
+            xfs += [{'pow2': 10, 'add': [0] * dim}, {'pow2': 0, 'add': [(-1) ** c * 2 ** 19 for c in range(dim)]},
+                    {'pow2': -6, 'add': [4096] * dim}]
+        for a, xf in enumerate(xfs):
+            for b, spec in enumerate(focus(kind)[:2]):
+                for r in range(2 if thorough else 1):
+                    fam, mrec = plain[(a + b + 2 * r) % len(plain)]
+                    recs.append(recipe(rng, fam + '-far', dict(mrec, xf=xf), spec, 1))
         if thorough and kind != 'wedge':
             fam, mrec = multi[0]
             recs.append(recipe(rng, fam, mrec, focus(kind)[1 if len(focus(kind)) > 1 else 0], 1, basis='facet'))
